@@ -71,6 +71,13 @@ func c12Cases(seed int64) []c12Case {
 	}
 	big := mustEncode(imgs.Make(320, 320, "gradient", "opaque", seed), ll(4, 75))
 	add("decode lossless 320x320", decPix(big))
+	// wide-and-short pictures and large tiles: a worker's share of the rows is smaller than one
+	// transform tile, so chunk boundaries fall inside tile rows
+	wide := mustEncode(imgs.Make(1600, 96, "ramptex", "opaque", seed), ll(4, 75))
+	add("decode lossless 1600x96 m4", decPix(wide))
+	tall := mustEncode(imgs.Make(400, 300, "ramptex", "opaque", seed), ll(1, 75))
+	add("decode lossless 400x300 m1 (64-row tiles)", decPix(tall))
+	add("lossless 1024x64 ramptex m4 q75", encBytes(imgs.Make(1024, 64, "ramptex", "opaque", seed), ll(4, 75)))
 	bigA := mustEncode(imgs.Make(320, 320, "noise", "agradient", seed), lossy(4, 75))
 	add("decode lossy+alpha 320x320", decPix(bigA))
 	anim := func() []byte {
@@ -138,7 +145,7 @@ func vecName(def int, sites map[string]int) string {
 func init() {
 	fw.Register(&fw.Check{
 		ID: "C12", Level: "exploration", Shards: shards16,
-		Rule:   "every runtime.GOMAXPROCS(0) call site found in the current tree is hooked (13 today); for 15 (thorough 24: larger pictures with several chunks per worker) (picture, options) cases large enough for every parallel threshold: the all-ones vector (reference), every single site deviating to each of {2,3,5,16}, every uniform vector n=2..16 (thorough 2..33; what a real GOMAXPROCS value produces), every pair of sites deviating to {2,5}; executed under the deterministic default schedule with pools that never reuse, so the result is a function of the vector alone; distinct = distinct (case, vector)",
+		Rule:   "every runtime.GOMAXPROCS(0) call site found in the current tree is hooked (13 today); for 18 (thorough 27: larger pictures with several chunks per worker) (picture, options) cases large enough for every parallel threshold: the all-ones vector (reference), every single site deviating to each of {2,3,5,16}, every uniform vector n=2..16 (thorough 2..33; what a real GOMAXPROCS value produces), every pair of sites deviating to {2,5}; executed under the deterministic default schedule with pools that never reuse, so the result is a function of the vector alone; distinct = distinct (case, vector)",
 		Assume: []string{"default (non-preempted) schedule: schedule dependence is C10's subject", "pools never reuse: history dependence is C11's subject", "GOMAXPROCS above 16 (thorough 33) is not run"},
 		Run: func(e *fw.Env, r *fw.Result) {
 			c12Thorough = !e.Quick()
